@@ -35,6 +35,10 @@ T = {
  ("C15","b"): ("caught_as_built","C15","C15:seq:gap",""),
  ("C16","a"): ("caught_after_strengthening","C16","C16:call_answered_twice:SameCallIdNonAdjacent","missed: adjacent-only de-duplication needs a call id that comes back on a later, non-adjacent item (A, B, A); 18 three-item scripts of that shape were added. (The first version of the extension judged which of the two items sharing an id survives - not defined by the property - and raised an alarm on the unchanged tree; corrected before it was registered.)"),
  ("C16","b"): ("caught_after_strengthening","C16","C16:tool_call_bound:NoneMode / FnRead","missed: the endless-call script only ran with tool_choice auto; it now also runs with none and function(read), where every call is refused and must still count against the bound"),
+ ("C18","a"): ("caught_as_built","C18","C18:acquire:live_lock_taken:Emptyx2 / DeadMetaOnlyx2","caught by the hook-level exploration: two acquirers sharing one private file name publish each other's record"),
+ ("C18","b"): ("caught_as_built","C18","C18:via_stale_cleanup:two_authorities:Clients1+1:DeadMetaOnly","needs a client (cleanup keyed on meta.json) next to a server: the client scenarios that were added before this change arrived report it; not swallowed by the known findings because no acquisition lies inside a re-validate..rename window"),
+ ("C20","a"): ("caught_as_built","C20","C20:bound:task_preview",""),
+ ("C20","b"): ("caught_as_built","C20","C20:lookup:index_of_seq:out_of_range",""),
 }
 def main():
     for (pid,var),(status,by,sig,note) in T.items():
